@@ -182,6 +182,48 @@ pub fn api_case(r: &mut Rng, n_servers: usize, use_async: bool) -> String {
     ) + &format!(" (* {} *)", flags.iter().filter(|(_, b)| !*b).map(|(n, _)| *n).collect::<Vec<_>>().join(", "))
 }
 
+/// a node whose only bootstrap address never answers: every call returns (the clock runs at real-time speed here, there
+/// is nobody to starve), bootstrapped() is false, a put fails with a query error, gets find nothing
+pub fn lonely_case(r: &mut Rng, use_async: bool) -> String {
+    simclock::set_ms(1000);
+    simclock::unmap_all();
+    simclock::NONBLOCKING_SOCKETS.store(false, std::sync::atomic::Ordering::SeqCst);
+    tape_seed(r.next());
+    let stop = std::sync::Arc::new(std::sync::atomic::AtomicBool::new(false));
+    let stop2 = stop.clone();
+    let ticker = std::thread::spawn(move || {
+        while !stop2.load(std::sync::atomic::Ordering::SeqCst) {
+            std::thread::sleep(std::time::Duration::from_millis(5));
+            simclock::advance_ms(5);
+        }
+    });
+    let dead = std::net::UdpSocket::bind("127.0.0.1:0").expect("bind");
+    let daddr = dead.local_addr().expect("addr").to_string();
+    let d = Dht::builder().bootstrap(&[daddr]).port(0).build().expect("node");
+    let mut flags: Vec<(&'static str, bool)> = Vec::new();
+    let b = if use_async { block_on(d.clone().as_async().bootstrapped()) } else { d.bootstrapped() };
+    flags.push(("not_bootstrapped", !b));
+    let put = if use_async { block_on(d.clone().as_async().put_immutable(b"nobody home")) } else { d.put_immutable(b"nobody home") };
+    flags.push(("put_fails_with_a_query_error", put.is_err()));
+    let ih = Id::from([7u8; 20]);
+    let got = if use_async { block_on(d.clone().as_async().get_immutable(ih)) } else { d.get_immutable(ih) };
+    flags.push(("get_immutable_finds_nothing", got.is_none()));
+    let ann = if use_async { block_on(d.clone().as_async().announce_peer(ih, Some(1234))) } else { d.announce_peer(ih, Some(1234)) };
+    flags.push(("announce_fails_with_a_query_error", ann.is_err()));
+    let peers: Vec<SocketAddrV4> = d.get_peers(ih).flatten().collect();
+    flags.push(("get_peers_ends_empty", peers.is_empty()));
+    let cn = if use_async { block_on(d.clone().as_async().get_closest_nodes(ih)) } else { d.get_closest_nodes(ih) };
+    flags.push(("get_closest_nodes_returns_nothing", cn.is_empty()));
+    stop.store(true, std::sync::atomic::Ordering::SeqCst);
+    let _ = ticker.join();
+    drop(dead);
+    format!(
+        "KApi 0 {} [{}]",
+        boolean(use_async),
+        flags.iter().enumerate().map(|(i, (_, b))| format!("({}, {})", 100 + i, boolean(*b))).collect::<Vec<_>>().join("; ")
+    ) + &format!(" (* {} *)", flags.iter().filter(|(_, b)| !*b).map(|(n, _)| *n).collect::<Vec<_>>().join(", "))
+}
+
 pub fn generate(seed: u64, scale: usize) -> Cases {
     let mut r = Rng::new(seed ^ 0xC01A);
     let mut cases = Cases::new();
@@ -189,5 +231,7 @@ pub fn generate(seed: u64, scale: usize) -> Cases {
         let n = [1usize, 3, 6, 10][i % 4];
         cases.push(if i % 2 == 0 { "api_sync" } else { "api_async" }, api_case(&mut r, n, i % 2 == 1));
     }
+    cases.push("api_unreachable_bootstrap_sync", lonely_case(&mut r, false));
+    cases.push("api_unreachable_bootstrap_async", lonely_case(&mut r, true));
     cases
 }
